@@ -54,8 +54,10 @@ C18(e, s) ==
   ELSE IF \E k \in 1..Len(Meta.digests) : Meta.fpr_octets[k] # Meta.digests[k] \/ Meta.keyids[k] # SubSeq(Meta.digests[k], 13, 20) THEN "C18.keyid"
   ELSE "ok"
 Clause(e, s) == IF Focus = "C06" THEN C06(e, s) ELSE IF Focus = "C07" THEN C07(e, s) ELSE C18(e, s)
-NextTrace == tid' = tid + 1 /\ i' = 1 /\ prot' = "none" /\ pw' = "-" /\ depth' = 0
-TInit == tid = 1 /\ i = 1 /\ Init
+\* a trace may name the protection state its key starts in (a key imported already protected); default: KeyProtect's Init
+InitOf(t) == IF t <= Len(Traces) /\ "init" \in DOMAIN Traces[t].meta THEN Traces[t].meta.init ELSE [prot |-> "none", pw |-> "-"]
+NextTrace == tid' = tid + 1 /\ i' = 1 /\ prot' = InitOf(tid + 1).prot /\ pw' = InitOf(tid + 1).pw /\ depth' = 0
+TInit == tid = 1 /\ i = 1 /\ prot = InitOf(1).prot /\ pw = InitOf(1).pw /\ depth = 0
 Step == IF tid > Len(Traces) THEN PrintT(<<"DONE", Len(Traces)>>) /\ tid' = tid + 1 /\ UNCHANGED <<i, prot, pw, depth>>
         ELSE IF Len(Traces[tid].events) = 0 THEN NextTrace
         ELSE LET s == After(Ev)  c == Clause(Ev, s) IN
